@@ -759,30 +759,7 @@ func (c08) Gen(r *Rand, idx int, tier string) interface{} {
 		if idx%variants == 2 || r.Pct(10) {
 			p.Prime = true
 		}
-		if p.Storm == 0 && !p.Prime {
-			either := func() {
-				if p.Class == "MUST-SUCCEED" {
-					p.Class = "EITHER"
-				}
-			}
-			switch {
-			case idx%variants == 3 || r.Pct(4):
-				if p.Trunc1 >= 0 || p.Trunc2 >= 0 {
-					p.EndKind = Pick(r, []string{"eof", "reset"})
-				} else {
-					p.EndKind = Pick(r, []string{"eof-after", "reset-after"})
-					either()
-				}
-			case idx%variants == 4 || r.Pct(4):
-				p.GapMs = Pick(r, []int{100, 100, 2000, 4900})
-				if p.GapMs > 100 {
-					either()
-				}
-			case idx%variants == 5 || r.Pct(4):
-				p.CancelAtMs = Pick(r, []int{1, 5, 100, 10000})
-				either()
-			}
-		}
+		c08Variants(r, p, idx%variants)
 		return p
 	}
 	// seeded: benign decorations only (must succeed), or 2..4 edits (class: MUST-FAIL if any edit is MUST-FAIL, else EITHER)
@@ -791,6 +768,7 @@ func (c08) Gen(r *Rand, idx int, tier string) interface{} {
 	if r.Pct(50) {
 		decorate(r, p)
 		p.Edit = "benign decorations"
+		c08Variants(r, p, -1)
 		return p
 	}
 	es := loginEdits(encrypted)
@@ -807,8 +785,39 @@ func (c08) Gen(r *Rand, idx int, tier string) interface{} {
 	}
 	// with several edits the construction no longer tells whether acceptance is impossible: judged for safety properties only
 	p.Edit = strings.Join(descs, " + ")
+	c08Variants(r, p, -1)
 	return p
 }
+
+// c08Variants adds transport and time conditions to a login plan: forced 3 / 4 / 5 selects one, otherwise each has 4 %.
+func c08Variants(r *Rand, p *loginPlan, forced int) {
+	if p.Storm != 0 || p.Prime {
+		return
+	}
+	either := func() {
+		if p.Class == "MUST-SUCCEED" {
+			p.Class = "EITHER"
+		}
+	}
+	switch {
+	case forced == 3 || r.Pct(4):
+		if p.Trunc1 >= 0 || p.Trunc2 >= 0 {
+			p.EndKind = Pick(r, []string{"eof", "reset"})
+		} else {
+			p.EndKind = Pick(r, []string{"eof-after", "reset-after"})
+			either()
+		}
+	case forced == 4 || r.Pct(4):
+		p.GapMs = Pick(r, []int{100, 100, 2000, 4900})
+		if p.GapMs > 100 {
+			either()
+		}
+	case forced == 5 || r.Pct(4):
+		p.CancelAtMs = Pick(r, []int{1, 5, 100, 10000})
+		either()
+	}
+}
+
 func (c08) Decode(raw json.RawMessage) (interface{}, error) {
 	p := &loginPlan{}
 	err := json.Unmarshal(raw, p)
@@ -931,6 +940,15 @@ func (c08) Run(plan interface{}, schedSeed uint64, replay []simrt.Choice, lenien
 		}
 	}
 	v.Probe("class:" + p.Class)
+	if p.EndKind != "" {
+		v.Probe("server-ends-connection:" + p.EndKind)
+	}
+	if p.GapMs > 0 {
+		v.Probe("replies-trickle")
+	}
+	if p.CancelAtMs > 0 {
+		v.Probe("context-cancelled-by-caller")
+	}
 	if obs.loginErr == nil {
 		v.Probe("outcome:success")
 	} else {
